@@ -70,10 +70,155 @@ Definition handler_write (fixed : bool) (limit : nat) (line : list byte) : hwrit
 (* payload: vsnprintf(payload, LIMIT, format, args) *)
 Definition payload_of (limit : nat) (text : list byte) : list byte := firstn (limit - 1) text.
 
+(* The integer content of the write function of every built-in handler (what the second tie,
+   lib/props/c16_slice.py, re-extracts from the C text; C16/ProofsGen.v ties these to
+   handler_write):  r = what the formatter returned, limit = sizeof(buf).
+     if (r >= (int)sizeof(buf)) { r = sizeof(buf) - 1; buf[r - 1] = '\n'; }   fwrite(buf, 1, r, fp) *)
+Definition clamp_count (limit r : Z) : Z := if limit <=? r then limit - 1 else r.
+Definition clamp_store (limit r : Z) : option (Z * Z) := if limit <=? r then Some (limit - 2, 10) else None.
+(* log_file_rotate_handler.c:  handler->offset += n; if (handler->offset >= handler->max_bytes) rotate *)
+Definition size_rot_after (offset n max_bytes : Z) : Z * bool := (offset + n, max_bytes <=? offset + n).
+
+(* State records of the sliced functions (lib/props/c16_slice.py puts the function it re-translates
+   between two of these, by field name, so the statements of C16/ProofsGen.v do not depend on
+   which fields the C text happens to touch).
+   hwio — a handler's write function.  Inputs: the buffer as the formatter left it, what the
+   formatter returned, handler->fmt / handler->fp non-NULL (fp_ok2: after a rotation), need_mutex,
+   enable_color, msg->level, offset / max_bytes of the size-rotating handler, the results of the
+   rotate / detect helpers.  Outputs: the return value, the size given to the formatter, the
+   capacity of the buffer, bytes handed to fwrite (count and number of calls), rotations (number,
+   and how many fwrites preceded), detect calls. *)
+Record hwio := {
+  io_buf : list Z; io_fret : Z; io_fmt_ok : Z; io_fp_ok : Z; io_fp_ok2 : Z; io_need_mutex : Z; io_color : Z;
+  io_level : Z; io_offset : Z; io_max_bytes : Z; io_rot_ret : Z; io_detect_ret : Z;
+  io_ret : Z; io_fmt_size : Z; io_buf_cap : Z; io_wr_cnt : Z; io_wr_n : Z; io_rot_n : Z; io_rot_at : Z; io_detect_n : Z }.
+(* lgio — muggle_logger_write and the log functions of the two loggers.  Inputs: logger->cnt, the
+   levels of the attached handlers, fmt_hint, the level of the call, the two allocation oracles and
+   the result of muggle_channel_write (async).  Outputs: msg.level, the size given to vsnprintf and
+   the capacity of the payload buffer, calls of muggle_logger_write, messages / sentinels queued,
+   blocks released, one loop iteration beyond MUGGLE_LOGGER_MAX_HANDLER, the handler slots whose
+   write function was called, in order. *)
+Record lgio := {
+  lo_cnt : Z; lo_levels : list Z; lo_fmt_hint : Z; lo_level : Z; lo_alloc1_ok : Z; lo_alloc2_ok : Z; lo_chan_ret : Z;
+  lo_msg_level : Z; lo_pay_size : Z; lo_pay_cap : Z; lo_written : Z; lo_queued : Z; lo_sentinel : Z; lo_freed : Z;
+  lo_overrun : Z; lo_wr_n : Z; lo_wr_order : list Z }.
+
+(* ------------------------------------------------------------------ *)
+(* 1b. the built-in formatters (log_fmt.c) and the level names (log_level.c) *)
+
+Definition digit (d : Z) : byte := Z.to_N (48 + d).
+Fixpoint dec_fuel (fuel : nat) (n : Z) (acc : list byte) : list byte :=
+  match fuel with
+  | O => acc
+  | S f => if n <? 10 then digit n :: acc else dec_fuel f (n / 10) (digit (n mod 10) :: acc)
+  end.
+(* decimal digits of a non-negative number (below 10^24: every C integer type) *)
+Definition dec_u (n : Z) : list byte := dec_fuel 24 n [].
+Definition pad0 (w : nat) (s : list byte) : list byte := repeat 48%N (w - length s) ++ s.
+(* printf's %d / %u / %llu (w = 0) and %0<w>d *)
+Definition dec_pad (w : nat) (n : Z) : list byte :=
+  if n <? 0 then 45%N :: pad0 (w - 1) (dec_u (- n)) else pad0 w (dec_u n).
+
+(* struct tm as gmtime_r fills it: years since 1900, months since January *)
+Record tmz := { tm_year : Z; tm_mon : Z; tm_mday : Z; tm_hour : Z; tm_min : Z; tm_sec : Z }.
+(* gmtime_r (libc; modelled, not verified): days since the epoch -> civil date *)
+Definition gmtime (sec : Z) : tmz :=
+  let days := sec / 86400 in
+  let rem := sec mod 86400 in
+  let z := days + 719468 in
+  let era := z / 146097 in
+  let doe := z - era * 146097 in
+  let yoe := (doe - doe / 1460 + doe / 36524 - doe / 146096) / 365 in
+  let y := yoe + era * 400 in
+  let doy := doe - (365 * yoe + yoe / 4 - yoe / 100) in
+  let mp := (5 * doy + 2) / 153 in
+  let d := doy - (153 * mp + 2) / 5 + 1 in
+  let m := if mp <? 10 then mp + 3 else mp - 9 in
+  {| tm_year := (if m <=? 2 then y + 1 else y) - 1900; tm_mon := m - 1; tm_mday := d;
+     tm_hour := rem / 3600; tm_min := (rem mod 3600) / 60; tm_sec := rem mod 60 |}.
+
+(* what a formatter sees of a message: muggle_log_msg_t with the file name already reduced to
+   its base name (muggle_path_basename: C20's subject) *)
+Record fenv := { fe_level : Z; fe_file : list byte; fe_line : Z; fe_func : list byte; fe_tid : Z;
+                 fe_sec : Z; fe_nsec : Z; fe_payload : list byte }.
+(* muggle_log_level_to_str: the name table, the name of a level outside it, MUGGLE_LOG_LEVEL_OFFSET;
+   coq/gen/Params_C16.v re-extracts them from log_level.c *)
+Record fmtcfg := { fc_names : list (list byte); fc_unknown : list byte; fc_offset : Z }.
+Definition level_index (F : fmtcfg) (lv : Z) : Z :=
+  let i := Z.shiftr lv (fc_offset F) in
+  if (0 <=? i) && (i <? Z.of_nat (length (fc_names F))) then i else -1.
+Definition level_name (F : fmtcfg) (lv : Z) : list byte :=
+  let i := level_index F lv in
+  if i <? 0 then fc_unknown F else nth (Z.to_nat i) (fc_names F) (fc_unknown F).
+
+(* muggle_log_fmt_simple:  "%s|%s:%u - %s\n"  level, file, line, payload *)
+Definition fmt_simple (F : fmtcfg) (e : fenv) : list byte :=
+  level_name F (fe_level e) ++ [124%N] ++ fe_file e ++ [58%N] ++ dec_pad 0 (fe_line e) ++ [32; 45; 32]%N ++
+  fe_payload e ++ [nl].
+(* muggle_log_fmt_complicated:  "%s|%d-%02d-%02dT%02d:%02d:%02d.%03d|%s:%u|%s|%llu - %s\n"
+   level, year, month, day, hour, minute, second, millisecond, file, line, function, thread id, payload *)
+Definition fmt_complicated (F : fmtcfg) (e : fenv) : list byte :=
+  let t := gmtime (fe_sec e) in
+  level_name F (fe_level e) ++ [124%N] ++
+  dec_pad 0 (tm_year t + 1900) ++ [45%N] ++ dec_pad 2 (tm_mon t + 1) ++ [45%N] ++ dec_pad 2 (tm_mday t) ++ [84%N] ++
+  dec_pad 2 (tm_hour t) ++ [58%N] ++ dec_pad 2 (tm_min t) ++ [58%N] ++ dec_pad 2 (tm_sec t) ++ [46%N] ++
+  dec_pad 3 (fe_nsec e / 1000000) ++ [124%N] ++
+  fe_file e ++ [58%N] ++ dec_pad 0 (fe_line e) ++ [124%N] ++ fe_func e ++ [124%N] ++ dec_pad 0 (fe_tid e) ++
+  [32; 45; 32]%N ++ fe_payload e ++ [nl].
+
+(* the formatter muggle_log_simple_init installs (log.c, muggle_log_simple_init_fmt):
+   "%s|%llu.%09d|%s:%u|%s|%llu - %s\n"  level, seconds, nanoseconds, file, line, function, thread id, payload
+   (muggle_log_complicated_init installs a copy of muggle_log_fmt_complicated) *)
+Definition fmt_init_simple (F : fmtcfg) (e : fenv) : list byte :=
+  level_name F (fe_level e) ++ [124%N] ++ dec_pad 0 (fe_sec e) ++ [46%N] ++ dec_pad 9 (fe_nsec e) ++ [124%N] ++
+  fe_file e ++ [58%N] ++ dec_pad 0 (fe_line e) ++ [124%N] ++ fe_func e ++ [124%N] ++ dec_pad 0 (fe_tid e) ++
+  [32; 45; 32]%N ++ fe_payload e ++ [nl].
+
+(* a printf layout as lib/props/c16_slice.py re-extracts it from the snprintf call of a formatter:
+   literal text, %s of a string the formatter holds, a decimal conversion (width with the 0 flag,
+   signedness and size of the conversion, the integer argument as a function of the message) *)
+Inductive fstr := SLevel | SFile | SFunc | SPayload.
+Inductive fitem :=
+  | FLit (s : list byte)
+  | FStr (k : fstr)
+  | FNum (w : nat) (sgn : bool) (bits : Z) (v : fenv -> tmz -> Z).
+Definition render_item (F : fmtcfg) (e : fenv) (it : fitem) : list byte :=
+  match it with
+  | FLit s => s
+  | FStr SLevel => level_name F (fe_level e)
+  | FStr SFile => fe_file e
+  | FStr SFunc => fe_func e
+  | FStr SPayload => fe_payload e
+  | FNum w sgn bits v =>
+    let x := v e (gmtime (fe_sec e)) in dec_pad w (if sgn then x else x mod 2 ^ bits)
+  end.
+Fixpoint render (F : fmtcfg) (e : fenv) (its : list fitem) : list byte :=
+  match its with
+  | [] => []
+  | it :: r => render_item F e it ++ render F e r
+  end.
+
 Inductive hkind := HCap | HFile | HConsole (color : bool).
 Record handler := { h_kind : hkind; h_level : Z; h_fmt : nat }.
 Record logger := { lg_handlers : list handler; lg_lowest : Z }.
 Record lmsg := { m_level : Z; m_id : nat; m_payload : list byte }.
+
+(* what the log function stores in the message besides level and payload: the caller's source
+   location, the clock reading and the thread id of call number m_id *)
+Record msrc := { ms_file : list byte; ms_line : Z; ms_func : list byte; ms_tid : Z; ms_sec : Z; ms_nsec : Z }.
+Definition fenv_of (s : msrc) (m : lmsg) : fenv :=
+  {| fe_level := m_level m; fe_file := ms_file s; fe_line := ms_line s; fe_func := ms_func s;
+     fe_tid := ms_tid s; fe_sec := ms_sec s; fe_nsec := ms_nsec s; fe_payload := m_payload m |}.
+(* the formatter oracle instantiated with the code's own formatters: h_fmt 0 = muggle_log_fmt_get_simple,
+   1 = muggle_log_fmt_get_complicated (and the copy muggle_log_complicated_init installs), 3 = the formatter
+   muggle_log_simple_init installs, anything else = the harness's custom formatter (the payload alone) *)
+Definition builtin_format (F : fmtcfg) (src : nat -> msrc) (k : nat) (m : lmsg) : list byte :=
+  match k with
+  | O => fmt_simple F (fenv_of (src (m_id m)) m)
+  | S O => fmt_complicated F (fenv_of (src (m_id m)) m)
+  | S (S (S O)) => fmt_init_simple F (fenv_of (src (m_id m)) m)
+  | _ => m_payload m
+  end.
 
 (* level constants: coq/gen/Params_C16.v re-extracts them from log_level.h *)
 Record levels := { lv_warning : Z; lv_error : Z; lv_fatal : Z; lv_max_handler : nat }.
